@@ -113,7 +113,7 @@ theorem query_reply_exact_16bit_repeated (lit tail : List Nat) (a1 a2 b1 b2 c1 c
 /-- Non-vacuity: `10;rgb:B9/01/a5` followed by junk → #b901a5; what `Sscanf` also lets through
 (blank, sign, 17 digits) and what it refuses (`_`, a missing group, a newline). -/
 example : colorOfReply litFg (ascii "10;rgb:B9/01/a5 x") = rgbColor 0xb9 0x01 0xa5 := by decide
-example : colorOfReply (litColor 15) (ascii "4;15;rgb: 1f/-1/+0a") = rgbColor 0x1f 0xff 0x0a := by decide
+example : colorOfReply (litColor 15) (ascii "4;15;rgb:-1/+0a/ 1f") = rgbColor 0xff 0x0a 0x1f := by decide
 example : colorOfReply litBg (ascii "11;rgb:ff/ff/12345678901234567") = 0 := by decide
 example : colorOfReply litBg (ascii "11;rgb:f_f/00/00") = 0 ∧ colorOfReply litBg (ascii "11;rgb:ff/ff") = 0 ∧
     colorOfReply litBg (ascii "11;rgb:ff/\nff/ff") = 0 ∧ colorOfReply (litColor 3) (ascii "4;30;rgb:ff/ff/ff") = 0 := by decide
